@@ -6,6 +6,7 @@ import (
 	"go/types"
 	"math"
 	"math/big"
+	"path/filepath"
 	"strconv"
 	"strings"
 
@@ -27,6 +28,12 @@ var intrinsicSet = map[string]bool{
 	"math.Round": true, "math.Floor": true, "math.Inf": true, "math.IsNaN": true, "math.IsInf": true,
 	"math.Trunc": true, "math.Ceil": true,
 	"time.Sleep": true, "time.Now": true, "(time.Time).String": true, "(time.Time).Format": true,
+	"(time.Time).Equal": true, "(time.Time).After": true, "(time.Time).Before": true, "(time.Time).AddDate": true,
+	"(time.Time).IsZero": true, "(time.Time).Sub": true, "(time.Duration).Hours": true, "time.Date": true,
+	"path/filepath.Join": true, "path/filepath.Clean": true, "path.Join": true,
+	"errors.Is": true,
+	"(*sync/atomic.Bool).Store": true, "(*sync/atomic.Bool).Load": true,
+	"(*sync/atomic.Int32).Add": true, "(*sync/atomic.Int32).Load": true, "(*sync/atomic.Int64).Add": true, "(*sync/atomic.Int64).Load": true,
 	"(*sync.WaitGroup).Add": true, "(*sync.WaitGroup).Done": true, "(*sync.WaitGroup).Wait": true,
 	"(*sync.Mutex).Lock": true, "(*sync.Mutex).Unlock": true,
 	"(*sync.RWMutex).Lock": true, "(*sync.RWMutex).Unlock": true, "(*sync.RWMutex).RLock": true, "(*sync.RWMutex).RUnlock": true,
@@ -55,6 +62,9 @@ func (ex *Exec) isIntrinsic(fn *ssa.Function) bool {
 			return true
 		}
 	}
+	if _, ok := ex.dynStubs[n]; ok {
+		return true
+	}
 	return false
 }
 
@@ -68,6 +78,16 @@ func (ex *Exec) mkError(msg string) Value {
 
 func (ex *Exec) intrinsic(g *G, f *Frame, fn *ssa.Function, args []Value, call *ssa.Call) (Value, bool) {
 	n := intrinsicName(fn)
+	if cl, ok := ex.dynStubs[n]; ok {
+		// harness-provided stub (vrt.Stub): same arguments, runs as ordinary code
+		ex.stubs[n] = true
+		nf := ex.newFrame(cl.Fn, args, cl.Env)
+		if call != nil {
+			nf.retTo = call
+		}
+		g.frames = append(g.frames, nf)
+		return nil, true
+	}
 	if stub, ok := ex.Prog.Stubs[n]; ok {
 		ex.stubs[n] = true
 		nf := ex.newFrame(stub, args, nil)
@@ -95,11 +115,105 @@ func (ex *Exec) intrinsic(g *G, f *Frame, fn *ssa.Function, args []Value, call *
 	case "time.Sleep", "runtime.Gosched":
 		return nil, false
 	case "time.Now":
-		return ex.zero(fn.Signature.Results().At(0).Type()), false
+		// day-number model: "now" is a nondeterministic day
+		t := ex.zero(fn.Signature.Results().At(0).Type()).(Struct)
+		ex.fresh++
+		t[1] = Int{Bits: 64, T: ex.nondetVar(fmt.Sprintf("now_%d", ex.fresh), SBV64)}
+		ex.assume(ex.TS.BVCmp("bvsge", t[1].(Int).T, ex.TS.BVC(0, 64)))
+		ex.assume(ex.TS.BVCmp("bvsle", t[1].(Int).T, ex.TS.BVC(20000, 64)))
+		return t, false
+	case "(time.Time).Equal":
+		return ex.binop(token.EQL, args[0].(Struct)[1], args[1].(Struct)[1], nil), false
+	case "(time.Time).After":
+		return ex.binop(token.GTR, args[0].(Struct)[1], args[1].(Struct)[1], nil), false
+	case "(time.Time).Before":
+		return ex.binop(token.LSS, args[0].(Struct)[1], args[1].(Struct)[1], nil), false
+	case "(time.Time).IsZero":
+		return ex.binop(token.EQL, args[0].(Struct)[1], mkInt(0, 64, false), nil), false
+	case "(time.Time).AddDate":
+		if ex.concInt(args[1], "AddDate years") != 0 || ex.concInt(args[2], "AddDate months") != 0 {
+			panic(unsupported{"time.AddDate with years/months (day-number model)"})
+		}
+		t := copyVal(args[0]).(Struct)
+		t[1] = ex.binop(token.ADD, t[1], args[3], nil)
+		return t, false
+	case "(time.Time).Sub":
+		// Duration in nanoseconds: days * 86400e9
+		d := ex.binop(token.SUB, args[0].(Struct)[1], args[1].(Struct)[1], nil)
+		return ex.binop(token.MUL, d, mkInt(86400000000000, 64, false), nil), false
+	case "(time.Duration).Hours":
+		d := args[0].(Int)
+		days := ex.binop(token.QUO, d, mkInt(86400000000000, 64, false), nil)
+		f := ex.convert(days, nil, types.Typ[types.Float64]).(Flt)
+		return ex.fltBinop(token.MUL, f, ex.fltC(24, 64)), false
+	case "time.Date":
+		panic(unsupported{"time.Date (use vrt.Day in harnesses; day-number model)"})
+	case "path/filepath.Join", "path.Join":
+		var parts []string
+		for _, e := range args[0].(Slice).A {
+			parts = append(parts, strArg(e))
+		}
+		return Str{C: filepath.Join(parts...)}, false
+	case "path/filepath.Clean":
+		return Str{C: filepath.Clean(strArg(args[0]))}, false
+	case "(*sync/atomic.Bool).Store", "(*sync/atomic.Bool).Load",
+		"(*sync/atomic.Int32).Add", "(*sync/atomic.Int32).Load", "(*sync/atomic.Int64).Add", "(*sync/atomic.Int64).Load":
+		// atomic cells: sequentially consistent accesses, never a data race; the value
+		// lives in a side table keyed by the cell's address
+		if ex.spec > 0 {
+			panic(mergeAbort{"atomic op in arm"})
+		}
+		p := args[0].(Ptr).P
+		if ex.atomics == nil {
+			ex.atomics = map[*Value]Value{}
+		}
+		ev := ex.newEvent(g, "atomic", nil, p)
+		if last := ex.atomicLast[p]; last != nil {
+			ex.addEdge(last, ev)
+		}
+		if ex.atomicLast == nil {
+			ex.atomicLast = map[*Value]*Event{}
+		}
+		ex.atomicLast[p] = ev
+		cur, ok := ex.atomics[p]
+		switch {
+		case strings.HasSuffix(n, "Bool).Store"):
+			ex.atomics[p] = args[1]
+			return nil, false
+		case strings.HasSuffix(n, "Bool).Load"):
+			if !ok {
+				return Bool{}, false
+			}
+			return cur, false
+		case strings.HasSuffix(n, ".Add"):
+			bits := 64
+			if strings.Contains(n, "Int32") {
+				bits = 32
+			}
+			if !ok {
+				cur = mkInt(0, bits, false)
+			}
+			nv := ex.binop(token.ADD, cur, args[1], nil)
+			ex.atomics[p] = nv
+			return nv, false
+		default:
+			if !ok {
+				if strings.Contains(n, "Int32") {
+					return mkInt(0, 32, false), false
+				}
+				return mkInt(0, 64, false), false
+			}
+			return cur, false
+		}
+	case "errors.Is":
+		a, b := args[0].(Iface), args[1].(Iface)
+		return ex.boolOf(ex.eqTerm(a, b)), false
 	case "(time.Time).String", "(time.Time).Format":
 		return Str{C: "<time>"}, false
-	case "fmt.Sprintf", "fmt.Sprint":
+	case "fmt.Sprintf":
 		return Str{C: ex.sprintf(args)}, false
+	case "fmt.Sprint":
+		return Str{C: "<sprint>"}, false
 	case "fmt.Errorf":
 		return ex.mkError(ex.sprintf(args)), false
 	case "errors.New":
@@ -130,24 +244,96 @@ func (ex *Exec) intrinsic(g *G, f *Frame, fn *ssa.Function, args []Value, call *
 }
 
 func (ex *Exec) sprintf(args []Value) string {
-	var sb strings.Builder
-	for i, a := range args {
-		if i > 0 {
-			sb.WriteByte(' ')
+	if len(args) == 0 {
+		return ""
+	}
+	f, ok := args[0].(Str)
+	if !ok || f.T != nil {
+		return "<fmt>"
+	}
+	var rest []Value
+	if len(args) > 1 {
+		if sl, ok := args[1].(Slice); ok {
+			rest = sl.A
+		} else {
+			rest = args[1:]
 		}
-		switch x := a.(type) {
-		case Str:
-			sb.WriteString(x.C)
-		case Slice:
-			for j, e := range x.A {
-				if j > 0 {
-					sb.WriteByte(',')
-				}
-				sb.WriteString(ex.describe(e))
+	}
+	render := func(v Value, verb byte) string {
+		if i, ok := v.(Iface); ok {
+			if i.T == nil {
+				return "<nil>"
 			}
-		default:
-			sb.WriteString(ex.describe(a))
+			v = i.V
 		}
+		switch x := v.(type) {
+		case Str:
+			if x.T != nil {
+				return "<sym>"
+			}
+			if verb == 'q' {
+				return strconv.Quote(x.C)
+			}
+			return x.C
+		case Int:
+			if x.T != nil {
+				return "<sym>"
+			}
+			return strconv.FormatInt(x.C, 10)
+		case Bool:
+			if x.T != nil {
+				return "<sym>"
+			}
+			return fmt.Sprint(x.C)
+		case Flt:
+			if x.T != nil {
+				return "<sym>"
+			}
+			fl := x.F
+			if !ex.FPMode {
+				fl, _ = x.R.Float64()
+			}
+			if verb == 'f' {
+				return strconv.FormatFloat(fl, 'f', -1, 64)
+			}
+			return strconv.FormatFloat(fl, 'g', -1, 64)
+		case Ptr:
+			// error values built by mkError: *errorString{s}
+			if x.P != nil {
+				if st, ok := (*x.P).(Struct); ok && len(st) == 1 {
+					if s, ok := st[0].(Str); ok {
+						return s.C
+					}
+				}
+			}
+			return "<ptr>"
+		}
+		return "<val>"
+	}
+	var sb strings.Builder
+	fs := f.C
+	ai := 0
+	for i := 0; i < len(fs); i++ {
+		if fs[i] != '%' || i+1 >= len(fs) {
+			sb.WriteByte(fs[i])
+			continue
+		}
+		j := i + 1
+		for j < len(fs) && strings.IndexByte("+-# 0123456789.", fs[j]) >= 0 {
+			j++
+		}
+		if j >= len(fs) {
+			break
+		}
+		if fs[j] == '%' {
+			sb.WriteByte('%')
+		} else if ai < len(rest) {
+			sb.WriteString(render(rest[ai], fs[j]))
+			ai++
+		} else {
+			sb.WriteString("%!" + string(fs[j]) + "(MISSING)")
+		}
+		i = j
 	}
 	return sb.String()
 }
@@ -581,6 +767,9 @@ func (ex *Exec) vrt(g *G, f *Frame, name string, fn *ssa.Function, args []Value)
 			}
 		}
 		panic(unsupported{"vrt.SetField: no field " + fld})
+	case "NumFields":
+		st := derefType(args[0].(Iface).T).Underlying().(*types.Struct)
+		return mkInt(int64(st.NumFields()), 64, false), false
 	case "GetField":
 		obj := args[0].(Iface).V.(Ptr)
 		fld := strArg(args[1])
@@ -621,6 +810,21 @@ func (ex *Exec) vrt(g *G, f *Frame, name string, fn *ssa.Function, args []Value)
 			}
 		}
 		return nil, false
+	case "Stub":
+		cl, ok := args[1].(Iface).V.(*Closure)
+		if !ok || cl == nil || cl.Fn == nil {
+			panic(unsupported{"vrt.Stub: not a function"})
+		}
+		ex.dynStubs[strArg(args[0])] = cl
+		return nil, false
+	case "Day":
+		t := ex.zero(fn.Signature.Results().At(0).Type()).(Struct)
+		t[1] = args[0]
+		return t, false
+	case "DayOf":
+		return args[0].(Struct)[1], false
+	case "TempDir":
+		return Str{C: "/vrt-tmp"}, false
 	case "KnownOutcome":
 		ex.knownOutcome = strArg(args[0])
 		return nil, false
